@@ -11,6 +11,7 @@ CONSTANTS
   WakeAt = 2
   IgnoreUnknownIdx = TRUE
   UnlinkOnDeregister = TRUE
+  ResumeClearsBackoff = TRUE
   IncBeforeSend = FALSE
   NoClearOnLimit = FALSE
   ResumeSkipsAcceptAll = FALSE
